@@ -43,6 +43,9 @@ func draw(t *rapid.T) *pbt.Case {
 	switch mech {
 	case "barrier":
 		s = g.WrapOf(t, rapid.SampledFrom(gen.BarrierKinds).Draw(t, "barrier"), h)
+		for j := range s.X {
+			s.X[j] = hg.Draw(t, 3) // (error-typed format argument of NewAssertionErrorWithWrappedErrf)
+		}
 	case "secondary":
 		s = &gen.Spec{K: rapid.SampledFrom([]string{"secondary", "combine"}).Draw(t, "sec"), C: g.Draw(t, 3), X: []*gen.Spec{h}}
 	case "errarg":
@@ -86,10 +89,10 @@ func collectHidden(s *gen.Spec, out *[]hidden) {
 		}
 	}
 	for _, x := range s.X {
-		switch s.K {
-		case "secondary", "combine", "wrapferr", "newfwerr":
+		switch {
+		case gen.IsSecondaryKind(s.K):
 			*out = append(*out, hidden{x, "secondary"})
-		case "mark":
+		case s.K == "mark":
 			*out = append(*out, hidden{x, "mark"})
 		default:
 			collectHidden(x, out)
@@ -112,7 +115,7 @@ func replaceHidden(s *gen.Spec, alsoMark bool) *gen.Spec {
 	c.X = nil
 	for _, x := range s.X {
 		switch {
-		case s.K == "secondary" || s.K == "combine" || s.K == "wrapferr" || s.K == "newfwerr":
+		case gen.IsSecondaryKind(s.K):
 			c.X = append(c.X, plain(x))
 		case s.K == "mark":
 			c.X = append(c.X, x) // the mark itself is what Mark is for
@@ -238,6 +241,8 @@ func check(c *pbt.Case, r *pbt.R) {
 			want = "lit " + n.S[0] + " u=" + n.S[1] + " s=" + n.S[2]
 		case "handledmsgf0":
 			want = "lit " + n.S[0]
+		case "assertwraperr":
+			want = "lit " + n.S[0] + " e=" + b.Of[n.X[0]].Error() + ": " + hid
 		case "assertwrap":
 			want = "lit " + n.S[0] + " u=" + n.S[1] + " s=" + n.S[2] + ": " + hid
 		}
@@ -375,14 +380,14 @@ func check(c *pbt.Case, r *pbt.R) {
 	// detail of every layer of a hidden error's chain is part of the
 	// safe details of the layer that hides it (barrier, secondary error).
 	for _, n := range c.Spec.Nodes() {
-		var hid *gen.Spec
-		switch {
-		case gen.IsBarrierKind(n.K):
-			hid = n.C
-		case n.K == "secondary" || n.K == "combine" || n.K == "wrapferr" || n.K == "newfwerr":
-			hid = n.X[0]
+		var hids []*gen.Spec
+		if gen.IsBarrierKind(n.K) {
+			hids = append(hids, n.C)
 		}
-		if hid == nil || b.Of[n] == nil || b.Of[hid] == nil {
+		if gen.IsSecondaryKind(n.K) {
+			hids = append(hids, n.X[0])
+		}
+		if len(hids) == 0 || b.Of[n] == nil {
 			continue
 		}
 		var have []string
@@ -390,19 +395,21 @@ func check(c *pbt.Case, r *pbt.R) {
 		for i := 0; i < len(gen.Chain1(n)) && w != nil; i, w = i+1, errors.UnwrapOnce(w) {
 			have = append(have, errors.GetSafeDetails(w).SafeDetails...)
 		}
-		for x := b.Of[hid]; x != nil; x = errors.UnwrapOnce(x) {
-			for _, sd := range errors.GetSafeDetails(x).SafeDetails {
-				if sd == "" {
-					continue
-				}
-				found := false
-				for _, el := range have {
-					if strings.HasSuffix(el, sd) {
-						found = true
+		for _, hid := range hids {
+			for x := b.Of[hid]; x != nil; x = errors.UnwrapOnce(x) {
+				for _, sd := range errors.GetSafeDetails(x).SafeDetails {
+					if sd == "" {
+						continue
 					}
-				}
-				if !found {
-					r.Failf("a safe detail of a hidden error is missing from the safe details of the layer that hides it: "+n.K, "layer %T of the hidden error, detail %.200q\nspec %s", x, sd, c.Spec)
+					found := false
+					for _, el := range have {
+						if strings.HasSuffix(el, sd) {
+							found = true
+						}
+					}
+					if !found {
+						r.Failf("a safe detail of a hidden error is missing from the safe details of the layer that hides it: "+n.K, "layer %T of the hidden error, detail %.200q\nspec %s", x, sd, c.Spec)
+					}
 				}
 			}
 		}
